@@ -2,6 +2,7 @@ package vermc
 
 import (
 	"context"
+	goerrors "errors"
 	"fmt"
 	"strconv"
 	"strings"
@@ -22,10 +23,21 @@ import (
 //	                  single call name0 -> name_k
 //	Ver = "Alt"       differently renamed code: name0 -> Alt
 //	Ver = "unknowing" code that never knew the lineage (nor lineage U)
+//
+// Obs lists the observation points of the process's start-up history: the
+// registration sequence is a sequence of steps, and at point i (immediately
+// before the i-th rename declaration of lineage T; point 0 is before the
+// first) the process lets the library *see* its types: GetTypeKey,
+// EncodeError and Is on instances of every Go type it has so far declared as
+// the new type of a migration and of its current type. Observations must not
+// change anything: the oracles are evaluated after all registrations and are
+// the same with and without them (a library that memoizes what it computed
+// from the migration table has to keep the memo consistent).
 type Proc struct {
 	Ver    string `json:"ver"`
 	Order  []int  `json:"order,omitempty"`
 	Direct bool   `json:"direct,omitempty"`
+	Obs    []int  `json:"obs,omitempty"`
 }
 
 const unknowing = "unknowing"
@@ -45,6 +57,21 @@ func (p Proc) n() int {
 	return 0
 }
 
+// points is the number of observation points of the process: one before
+// each of its rename declarations for lineage T.
+func (p Proc) points() int {
+	switch {
+	case p.Ver == "Alt" || p.Direct:
+		return 1
+	case p.Ver == "V0" || p.Ver == unknowing:
+		return 0
+	}
+	return len(p.Order)
+}
+
+// plain is the same process without observation points.
+func (p Proc) plain() Proc { p.Obs = nil; return p }
+
 // cur is the Go type that stands for lineage T in this process.
 func (p Proc) cur() *version {
 	switch p.Ver {
@@ -62,6 +89,9 @@ func (p Proc) String() string {
 		s += "(direct)"
 	} else if len(p.Order) > 0 {
 		s += "(order " + orderString(p.Order) + ")"
+	}
+	if len(p.Obs) > 0 {
+		s += "[observes before step " + orderString(p.Obs) + "]"
 	}
 	return s
 }
@@ -112,6 +142,11 @@ func (p Proc) key() string {
 
 // valid says whether the spec is well formed (used on replay payloads).
 func (p Proc) valid() bool {
+	for i, o := range p.Obs {
+		if o < 0 || o >= p.points() || (i > 0 && o <= p.Obs[i-1]) {
+			return false
+		}
+	}
 	switch p.Ver {
 	case "V0", "Alt", unknowing:
 		return len(p.Order) == 0 && !p.Direct
@@ -153,49 +188,105 @@ type opts struct {
 	UPos int
 }
 
-// migrationCalls lists the RegisterTypeMigration calls of the process, in
-// the sequence in which it makes them. Each rename step is declared for the
-// leaf type and for the wrapper type (one binary, one migration table).
-func (p Proc) migrationCalls(o opts) []migCall {
+// event is one step of a process's start-up history: a
+// RegisterTypeMigration call, or an observation of the versions listed.
+type event struct {
+	call    *migCall
+	observe []*version
+}
+
+// history lists the start-up history of the process: its
+// RegisterTypeMigration calls in the sequence in which it makes them (each
+// rename step is declared for the leaf type and for the wrapper type: one
+// binary, one migration table) and, at the observation points, what it lets
+// the library see.
+func (p Proc) history(o opts) []event {
 	if !p.knows() {
 		return nil
 	}
-	var steps [][]migCall
+	type step struct {
+		calls []migCall
+		v     *version
+	}
+	var steps []step
 	switch {
 	case p.Ver == "Alt":
-		steps = append(steps, []migCall{
+		steps = append(steps, step{[]migCall{
 			{chainT[0].leafName(), altT.leafProto},
-			{chainT[0].wrapName(), altT.wrapProto}})
+			{chainT[0].wrapName(), altT.wrapProto}}, altT})
 	case p.Direct:
 		k := p.n()
-		steps = append(steps, []migCall{
+		steps = append(steps, step{[]migCall{
 			{chainT[0].leafName(), chainT[k].leafProto},
-			{chainT[0].wrapName(), chainT[k].wrapProto}})
+			{chainT[0].wrapName(), chainT[k].wrapProto}}, chainT[k]})
 	default:
 		for _, i := range p.Order {
-			steps = append(steps, []migCall{
+			steps = append(steps, step{[]migCall{
 				{chainT[i].leafName(), chainT[i+1].leafProto},
-				{chainT[i].wrapName(), chainT[i+1].wrapProto}})
+				{chainT[i].wrapName(), chainT[i+1].wrapProto}}, chainT[i+1]})
 		}
 	}
-	u := []migCall{
+	u := step{[]migCall{
 		{chainU[0].leafName(), chainU[1].leafProto},
-		{chainU[0].wrapName(), chainU[1].wrapProto}}
+		{chainU[0].wrapName(), chainU[1].wrapProto}}, chainU[1]}
 	pos := o.UPos
 	if pos > len(steps) {
 		pos = len(steps)
 	}
-	var calls []migCall
-	for i, s := range steps {
-		if i == pos {
-			calls = append(calls, u...)
+	obs := map[int]bool{}
+	for _, i := range p.Obs {
+		obs[i] = true
+	}
+	var evs []event
+	// seen: the current type, then every type declared so far as a new type
+	seen := []*version{p.cur()}
+	add := func(st step) {
+		for i := range st.calls {
+			evs = append(evs, event{call: &st.calls[i]})
 		}
-		calls = append(calls, s...)
+		if st.v != p.cur() {
+			seen = append(seen, st.v)
+		}
+	}
+	for i, st := range steps {
+		if i == pos {
+			add(u)
+		}
+		if obs[i] {
+			evs = append(evs, event{observe: append([]*version{}, seen...)})
+		}
+		add(st)
 	}
 	if pos >= len(steps) {
-		calls = append(calls, u...)
+		add(u)
+	}
+	return evs
+}
+
+// migrationCalls is the history without the observations.
+func (p Proc) migrationCalls(o opts) []migCall {
+	var calls []migCall
+	for _, ev := range p.history(o) {
+		if ev.call != nil {
+			calls = append(calls, *ev.call)
+		}
 	}
 	return calls
+}
+
+// observe lets the library see instances of the given versions' types: type
+// key, encoding, identity. The results are not used.
+func observe(vs []*version) {
+	for _, v := range vs {
+		l := v.newLeaf("seen")
+		w := v.newWrap("seen", v.newLeaf("seen inside"))
+		_ = errors.GetTypeKey(l)
+		_ = errors.GetTypeKey(w)
+		_ = errors.EncodeError(context.Background(), w)
+		_ = errors.Is(w, v.newWrap("seen", v.newLeaf("seen inside")))
+		_ = errors.Is(errors.Wrap(l, "ctx"), v.newLeaf("seen"))
+		_ = errors.Is(v.newWrap("seen", goerrors.New("root")), l)
+	}
 }
 
 func leafDecoderFor(v *version) errors.LeafDecoder {
@@ -209,15 +300,20 @@ func wrapDecoderFor(v *version) errors.WrapperDecoder {
 }
 
 // register performs the process's registrations on the current registries:
-// first the migrations (in the process's order), then, as the documentation
+// first the migrations (in the process's order, with the observations of
+// its history in between), then, as the documentation
 // of RegisterTypeMigration demands, the decoders (and encoders) under the
 // type key the library reports for the process's current types.
 func (p Proc) register(o opts) {
 	if !p.knows() {
 		return
 	}
-	for _, m := range p.migrationCalls(o) {
-		errors.RegisterTypeMigration(pkgPath, m.prevName, m.newProto)
+	for _, ev := range p.history(o) {
+		if ev.call != nil {
+			errors.RegisterTypeMigration(pkgPath, ev.call.prevName, ev.call.newProto)
+		} else {
+			observe(ev.observe)
+		}
 	}
 	for _, v := range []*version{p.cur(), chainU[1]} {
 		lk, wk := errors.GetTypeKey(v.leafProto), errors.GetTypeKey(v.wrapProto)
@@ -300,4 +396,32 @@ func knowingProcs(maxN int) []Proc {
 		}
 	}
 	return append(ps, Proc{Ver: "Alt"})
+}
+
+// withObservations returns p with every subset of its observation points
+// (the empty subset first).
+func withObservations(p Proc) []Proc {
+	n := p.points()
+	var out []Proc
+	for mask := 0; mask < 1<<n; mask++ {
+		q := p
+		q.Obs = nil
+		for i := 0; i < n; i++ {
+			if mask&(1<<i) != 0 {
+				q.Obs = append(q.Obs, i)
+			}
+		}
+		out = append(out, q)
+	}
+	return out
+}
+
+// observingProcs is every knowing process with every non-empty subset of
+// its observation points.
+func observingProcs(maxN int) []Proc {
+	var out []Proc
+	for _, p := range knowingProcs(maxN) {
+		out = append(out, withObservations(p)[1:]...)
+	}
+	return out
 }
